@@ -115,6 +115,9 @@ namespace occa {
 
           kernelMetadata_t &metadata = metadataMap[func.name()];
           metadata.name = func.name();
+          // A kernel without arguments still has (empty) metadata,
+          // as it does when it is read back from build.json
+          metadata.initialized = true;
 
           int args = (int) func.args.size();
           for (int ai = 0; ai < args; ++ai) {
